@@ -3,6 +3,7 @@
  */
 
 #include <stdlib.h>
+#include <limits.h>
 #include <string.h>
 #include <float.h>
 #include <errno.h>
@@ -99,7 +100,7 @@ static int iterReset(MPT_INTERFACE(iterator) *it)
 {
 	MPT_STRUCT(iteratorLinear) *d = MPT_baseaddr(iteratorLinear, it, _it);
 	d->pos = 0;
-	return d->elem;
+	return d->elem > INT_MAX ? INT_MAX : (int) d->elem;
 }
 static const MPT_INTERFACE_VPTR(metatype) _vptr_linear_meta = {
 	{ iterConv },
